@@ -359,9 +359,17 @@ class NewStyleField(Field, np.lib.mixins.NDArrayOperatorsMixin):
     def imag(self):
         return np.imag(self)
 
+    @imag.setter
+    def imag(self, value):
+        self.data.imag = _unwrap(value)
+
     @property
     def real(self):
         return np.real(self)
+
+    @real.setter
+    def real(self, value):
+        self.data.real = _unwrap(value)
 
     @property
     def size(self):
@@ -391,6 +399,43 @@ class NewStyleField(Field, np.lib.mixins.NDArrayOperatorsMixin):
     def flags(self):
         return self.data.flags
 
+    @property
+    def flat(self):
+        return self.data.flat
+
+    @flat.setter
+    def flat(self, value):
+        self.data.flat = _unwrap(value)
+
+    def fill(self, value):
+        self.data.fill(_unwrap(value))
+
+    def put(self, indices, values, mode='raise'):
+        self.data.put(_unwrap(indices), _unwrap(values), mode=mode)
+
+    def sort(self, *args, **kwargs):
+        # Like ndarray.sort(), this sorts in-place and returns nothing.
+        self.data.sort(*args, **kwargs)
+
+    def partition(self, *args, **kwargs):
+        # Like ndarray.partition(), this partitions in-place and returns nothing.
+        self.data.partition(*_unwrap(args), **kwargs)
+
+    def __bool__(self):
+        return bool(self.data)
+
+    def __float__(self):
+        return float(self.data)
+
+    def __int__(self):
+        return int(self.data)
+
+    def __complex__(self):
+        return complex(self.data)
+
+    def __index__(self):
+        return self.data.__index__()
+
     all = np.all
     any = np.any
     argmax = np.argmax
@@ -413,7 +458,6 @@ class NewStyleField(Field, np.lib.mixins.NDArrayOperatorsMixin):
     repeat = np.repeat
     reshape = np.reshape
     round = np.round
-    sort = np.sort
     squeeze = np.squeeze
     std = np.std
     sum = np.sum
